@@ -63,6 +63,10 @@ type ArchiveDecoder struct {
 	d    FormatDecoder
 	dir  string
 	last interface{}
+
+	// Set once the first entry (the root of the archive, which has no name)
+	// has been returned. Every entry after that needs a name.
+	started bool
 }
 
 // NewArchiveDecoder initializes a decoder for a catar archive.
@@ -162,6 +166,13 @@ loop:
 			return nil, fmt.Errorf("unsupported element %s in archive", reflect.TypeOf(d))
 		}
 	}
+
+	// Only the root of the archive comes without a filename element. A nameless
+	// entry anywhere else would replace the directory it is in.
+	if name == "" && a.started {
+		return nil, InvalidFormat{"entry without a name"}
+	}
+	a.started = true
 
 	// If it doesn't have a payload or is a device/symlink, it must be a directory
 	if payload == nil && device == nil && symlink == nil {
